@@ -55,6 +55,16 @@ func accessorsAgree(bc image.Image) error {
 			}
 		}
 	}
+	if op, ok := bc.(interface{ Opaque() bool }); ok && op.Opaque() {
+		// encoders such as image/png trust Opaque() and then drop the alpha channel
+		for y := b.Min.Y; y < b.Max.Y; y++ {
+			for x := b.Min.X; x < b.Max.X; x++ {
+				if _, _, _, a := bc.At(x, y).RGBA(); a != 0xffff {
+					return fmt.Errorf("Opaque() reports true, pixel (%d,%d) = %v has alpha %#x", x, y, bc.At(x, y), a)
+				}
+			}
+		}
+	}
 	dst := image.NewRGBA64(image.Rect(0, 0, b.Dx(), b.Dy()))
 	draw.Draw(dst, dst.Bounds(), bc, b.Min, draw.Src)
 	for y := 0; y < b.Dy(); y++ {
@@ -230,9 +240,18 @@ func colourVariant(t TB, prop, check string, c any, spec EncSpec, plain [][]bool
 	if h%4 != 0 {
 		return
 	}
-	if (h>>2)%5 == 0 {
+	switch (h >> 2) % 10 {
+	case 0:
 		spec.Scheme = &SchemeSpec{Model: "cmyk", FG: ColorSpec{Model: "cmyk", V: [4]uint16{10, 200, 30, 40}}, BG: ColorSpec{Model: "cmyk", V: [4]uint16{0, 0, 90, 5}}}
-	} else {
+	case 1: // light on dark
+		spec.Scheme = &SchemeSpec{Model: "rgba", FG: ColorSpec{Model: "rgba", V: [4]uint16{250, 250, 210, 255}}, BG: ColorSpec{Model: "rgba", V: [4]uint16{0, 0, 60, 255}}}
+	case 2: // dark bars on a transparent ground (label overlays)
+		spec.Scheme = &SchemeSpec{Model: "nrgba", FG: ColorSpec{Model: "nrgba", V: [4]uint16{0, 0, 90, 255}}, BG: ColorSpec{Model: "nrgba", V: [4]uint16{255, 255, 255, 0}}}
+	case 3: // colours of other types than the scheme's model produces
+		spec.Scheme = &SchemeSpec{Model: "gray", FG: ColorSpec{Model: "rgba", V: [4]uint16{0, 0, 0, 255}}, BG: ColorSpec{Model: "nrgba", V: [4]uint16{0, 0, 0, 0}}}
+	case 4: // a caller-defined colour type and *image.Uniform
+		spec.Scheme = &SchemeSpec{Model: "rgba", FG: ColorSpec{Model: "custom", V: [4]uint16{0, 0, 0, 65535}}, BG: ColorSpec{Model: "uniform", V: [4]uint16{255, 255, 255, 255}}}
+	default:
 		spec.Scheme = &SchemeSpec{Predefined: 1 + int(h>>2)%4}
 	}
 	bc, err, pv := encodeSpec(spec)
@@ -249,6 +268,10 @@ func colourVariant(t TB, prop, check string, c any, spec EncSpec, plain [][]bool
 	}
 	if perr != nil {
 		failf(t, prop, check, c, "the WithColor entry point of the same call: %v", perr)
+	}
+	var aerr error
+	if pv := try(func() { aerr = accessorsAgree(bc) }); pv != nil || aerr != nil {
+		failf(t, prop, check, c, "the WithColor entry point of the same call: %v %v", aerr, pv)
 	}
 	if !samePattern(pat, plain) {
 		failf(t, prop, check, c, "the WithColor entry point of the same call draws a %dx%d module pattern that differs from the plain entry point's %dx%d pattern", len(pat[0]), len(pat), len(plain[0]), len(plain))
